@@ -134,7 +134,7 @@ type rop struct {
 	Rep      int              `json:"rep,omitempty"`
 }
 
-const maxPool = 6
+const maxPool = 16
 
 type routerRun struct {
 	sys      actor.ActorSystem
